@@ -1,0 +1,217 @@
+//! Verification hook, compiled only with `--cfg triomphe_verif`.
+//!
+//! Shadows the atomic type used for the reference count with a transparent
+//! wrapper of identical size and alignment that forwards every operation to
+//! two functions the verification harness defines (`#[no_mangle]`). Orderings,
+//! call sites and control flow of the library stay its own source lines.
+
+#![allow(dead_code)]
+
+pub(crate) mod atomic {
+    pub use core::sync::atomic::*;
+
+    use core::sync::atomic::AtomicUsize as RealAtomicUsize;
+
+    extern "Rust" {
+        fn __triomphe_verif_atomic(
+            cell: &RealAtomicUsize,
+            op: u8,
+            a: usize,
+            b: usize,
+            success: u8,
+            failure: u8,
+        ) -> (usize, bool);
+        fn __triomphe_verif_fence(order: u8, compiler_only: bool);
+    }
+
+    const OP_LOAD: u8 = 0;
+    const OP_STORE: u8 = 1;
+    const OP_SWAP: u8 = 2;
+    const OP_CAS: u8 = 3;
+    const OP_CAS_WEAK: u8 = 4;
+    const OP_ADD: u8 = 5;
+    const OP_SUB: u8 = 6;
+    const OP_AND: u8 = 7;
+    const OP_OR: u8 = 8;
+    const OP_XOR: u8 = 9;
+    const OP_NAND: u8 = 10;
+    const OP_MAX: u8 = 11;
+    const OP_MIN: u8 = 12;
+
+    #[inline]
+    fn ord(o: Ordering) -> u8 {
+        match o {
+            Ordering::Relaxed => 0,
+            Ordering::Release => 1,
+            Ordering::Acquire => 2,
+            Ordering::AcqRel => 3,
+            Ordering::SeqCst => 4,
+            _ => 4,
+        }
+    }
+
+    #[repr(transparent)]
+    pub struct AtomicUsize(RealAtomicUsize);
+
+    impl AtomicUsize {
+        #[inline]
+        pub const fn new(v: usize) -> Self {
+            AtomicUsize(RealAtomicUsize::new(v))
+        }
+
+        #[inline]
+        fn call(&self, op: u8, a: usize, b: usize, s: Ordering, f: Ordering) -> (usize, bool) {
+            unsafe { __triomphe_verif_atomic(&self.0, op, a, b, ord(s), ord(f)) }
+        }
+
+        #[inline]
+        pub fn load(&self, o: Ordering) -> usize {
+            self.call(OP_LOAD, 0, 0, o, Ordering::Relaxed).0
+        }
+
+        #[inline]
+        pub fn store(&self, v: usize, o: Ordering) {
+            self.call(OP_STORE, v, 0, o, Ordering::Relaxed);
+        }
+
+        #[inline]
+        pub fn swap(&self, v: usize, o: Ordering) -> usize {
+            self.call(OP_SWAP, v, 0, o, Ordering::Relaxed).0
+        }
+
+        #[inline]
+        pub fn compare_exchange(
+            &self,
+            current: usize,
+            new: usize,
+            success: Ordering,
+            failure: Ordering,
+        ) -> Result<usize, usize> {
+            let (v, ok) = self.call(OP_CAS, current, new, success, failure);
+            if ok {
+                Ok(v)
+            } else {
+                Err(v)
+            }
+        }
+
+        #[inline]
+        pub fn compare_exchange_weak(
+            &self,
+            current: usize,
+            new: usize,
+            success: Ordering,
+            failure: Ordering,
+        ) -> Result<usize, usize> {
+            let (v, ok) = self.call(OP_CAS_WEAK, current, new, success, failure);
+            if ok {
+                Ok(v)
+            } else {
+                Err(v)
+            }
+        }
+
+        #[inline]
+        pub fn fetch_add(&self, v: usize, o: Ordering) -> usize {
+            self.call(OP_ADD, v, 0, o, Ordering::Relaxed).0
+        }
+
+        #[inline]
+        pub fn fetch_sub(&self, v: usize, o: Ordering) -> usize {
+            self.call(OP_SUB, v, 0, o, Ordering::Relaxed).0
+        }
+
+        #[inline]
+        pub fn fetch_and(&self, v: usize, o: Ordering) -> usize {
+            self.call(OP_AND, v, 0, o, Ordering::Relaxed).0
+        }
+
+        #[inline]
+        pub fn fetch_or(&self, v: usize, o: Ordering) -> usize {
+            self.call(OP_OR, v, 0, o, Ordering::Relaxed).0
+        }
+
+        #[inline]
+        pub fn fetch_xor(&self, v: usize, o: Ordering) -> usize {
+            self.call(OP_XOR, v, 0, o, Ordering::Relaxed).0
+        }
+
+        #[inline]
+        pub fn fetch_nand(&self, v: usize, o: Ordering) -> usize {
+            self.call(OP_NAND, v, 0, o, Ordering::Relaxed).0
+        }
+
+        #[inline]
+        pub fn fetch_max(&self, v: usize, o: Ordering) -> usize {
+            self.call(OP_MAX, v, 0, o, Ordering::Relaxed).0
+        }
+
+        #[inline]
+        pub fn fetch_min(&self, v: usize, o: Ordering) -> usize {
+            self.call(OP_MIN, v, 0, o, Ordering::Relaxed).0
+        }
+
+        #[inline]
+        pub fn fetch_update<F>(
+            &self,
+            set_order: Ordering,
+            fetch_order: Ordering,
+            mut f: F,
+        ) -> Result<usize, usize>
+        where
+            F: FnMut(usize) -> Option<usize>,
+        {
+            let mut prev = self.load(fetch_order);
+            while let Some(next) = f(prev) {
+                match self.compare_exchange_weak(prev, next, set_order, fetch_order) {
+                    x @ Ok(_) => return x,
+                    Err(next_prev) => prev = next_prev,
+                }
+            }
+            Err(prev)
+        }
+
+        #[inline]
+        pub fn get_mut(&mut self) -> &mut usize {
+            self.0.get_mut()
+        }
+
+        #[inline]
+        pub fn into_inner(self) -> usize {
+            self.0.into_inner()
+        }
+
+        #[inline]
+        pub fn as_ptr(&self) -> *mut usize {
+            self.0.as_ptr()
+        }
+    }
+
+    impl core::fmt::Debug for AtomicUsize {
+        fn fmt(&self, f: &mut core::fmt::Formatter<'_>) -> core::fmt::Result {
+            core::fmt::Debug::fmt(&self.0, f)
+        }
+    }
+
+    impl Default for AtomicUsize {
+        fn default() -> Self {
+            AtomicUsize::new(0)
+        }
+    }
+
+    impl From<usize> for AtomicUsize {
+        fn from(v: usize) -> Self {
+            AtomicUsize::new(v)
+        }
+    }
+
+    #[inline]
+    pub fn fence(o: Ordering) {
+        unsafe { __triomphe_verif_fence(ord(o), false) }
+    }
+
+    #[inline]
+    pub fn compiler_fence(o: Ordering) {
+        unsafe { __triomphe_verif_fence(ord(o), true) }
+    }
+}
